@@ -144,6 +144,24 @@ Theorem C18_contained_destroyed_once_functions : forall n ops,
 Proof. exact function_destroyed_once. Qed.
 Print Assumptions C18_contained_destroyed_once_functions.
 
+(* --- finding F9b (KNOWN_FINDINGS: C18:FUNX:...): the theorems above are about histories in which
+   the wrapped objects' copy / move constructors do not throw (fstep has no such step).  With a
+   copy constructor that throws during function::operator=(function const&) onto a non-empty
+   function the old object is destroyed twice.  Full statement that is NOT provable for the code
+   as it is:  forall n ops, NoDup (dtors (led (destroy_all (run fxstep ops (init n))))). *)
+Theorem C18_throwing_copy_double_destroy_refuted :
+  exists n ops x, count_occ Nat.eq_dec (dtors (led (destroy_all (run fxstep ops (init n))))) x = 2.
+Proof. exact throwing_copy_double_destroy_refuted. Qed.
+Print Assumptions C18_throwing_copy_double_destroy_refuted.
+
+(* histories without the throwing step are exactly the fstep histories of the theorems above *)
+Theorem C18_contained_destroyed_once_functions_partial : forall n ops,
+  let st := run fxstep (map FX ops) (init n) in
+  let L := led (destroy_all st) in
+  NoDup (ctors L) /\ NoDup (dtors L) /\ Permutation (ctors L) (dtors L).
+Proof. exact function_destroyed_once_fx. Qed.
+Print Assumptions C18_contained_destroyed_once_functions_partial.
+
 (* --- non-vacuity: concrete histories *)
 Definition small_copyable (beh : N) (k : Z) : oval :=
   {| vbig := false; vcpy := true; vbeh := beh; vpay := k; vcalls := 0 |}.
